@@ -1,6 +1,7 @@
 package main
 
 import (
+	"path/filepath"
 	"go/ast"
 	"context"
 	"fmt"
@@ -97,6 +98,9 @@ func init() {
 		if len(args) > 1 {
 			// keep a copy for inspection
 			runCmd("/", nil, "cp", "-r", w.EmittedDir, args[1])
+			if w.EmittedClient != nil && len(w.EmittedClient.GoFiles) > 0 {
+				runCmd("/", nil, "cp", "-r", filepath.Dir(w.EmittedClient.GoFiles[0]), args[1]+"_client")
+			}
 		}
 		return 0
 	}
